@@ -1,5 +1,5 @@
 (* DelayedProofs.v -- lemmas about models/Delayed.v (C10). *)
-From Got Require Import Base Delayed.
+From Got Require Import Base Heap HeapProofs Delayed.
 Require Import Permutation Sorted.
 Local Open Scope Z_scope.
 
@@ -682,4 +682,38 @@ Proof.
   - intros [|x p] t p' y H E Hy; [discriminate E|]. inversion E; subst.
     destruct Hy as [<-|Hy]; [lia|]. inversion H as [|? ? _ Hf]; subst.
     rewrite Forall_forall in Hf. apply Hf. exact Hy.
+Qed.
+
+(* ------------------------------------------------------------------ the container/heap instance *)
+Lemma dl_less_asym : hp_asym dl_less.
+Proof. intros x y H. unfold dl_less in *. apply Z.ltb_lt in H. apply Z.ltb_ge. lia. Qed.
+
+Lemma dl_less_negtrans : hp_negtrans dl_less.
+Proof. intros x y z H1 H2. unfold dl_less in *. apply Z.ltb_ge in H1, H2. apply Z.ltb_ge. lia. Qed.
+
+Lemma dl_heap_pq_ok : dl_pq_ok dl_heap_pq (hp_heap dl_less).
+Proof.
+  constructor; cbn [dl_heap_pq pq_t pq_empty pq_push pq_top pq_pop pq_len pq_elems].
+  - apply hp_heap_nil.
+  - reflexivity.
+  - intros t p H. destruct (hp_push_spec dl_less dl_less_asym dl_less_negtrans p t H) as (l' & -> & Hh & _). exact Hh.
+  - intros t p H. destruct (hp_push_spec dl_less dl_less_asym dl_less_negtrans p t H) as (l' & -> & _ & Hp & _). exact Hp.
+  - reflexivity.
+  - intros p H. destruct p as [|x p'] eqn:E; [reflexivity|]. rewrite <- E in *.
+    assert (Hne : p <> []) by (rewrite E; discriminate).
+    destruct (hp_pop_spec dl_less dl_less_asym dl_less_negtrans p H Hne) as (m & l' & -> & _ & _ & _ & Ht & _).
+    rewrite Ht. reflexivity.
+  - intros p H Hne. destruct (hp_pop_spec dl_less dl_less_asym dl_less_negtrans p H Hne) as (m & l' & -> & _). discriminate.
+  - intros p t p' H E. destruct p as [|x q] eqn:Ep; [cbn in E; discriminate E|]. rewrite <- Ep in *.
+    assert (Hne : p <> []) by (rewrite Ep; discriminate).
+    destruct (hp_pop_spec dl_less dl_less_asym dl_less_negtrans p H Hne) as (m & l' & Hpop & Hh & _).
+    rewrite Hpop in E. inversion E; subst. exact Hh.
+  - intros p t p' H E. destruct p as [|x q] eqn:Ep; [cbn in E; discriminate E|]. rewrite <- Ep in *.
+    assert (Hne : p <> []) by (rewrite Ep; discriminate).
+    destruct (hp_pop_spec dl_less dl_less_asym dl_less_negtrans p H Hne) as (m & l' & Hpop & _ & Hp & _).
+    rewrite Hpop in E. inversion E; subst. exact Hp.
+  - intros p t p' y H E Hy. destruct p as [|x q] eqn:Ep; [cbn in E; discriminate E|]. rewrite <- Ep in *.
+    assert (Hne : p <> []) by (rewrite Ep; discriminate).
+    destruct (hp_pop_spec dl_less dl_less_asym dl_less_negtrans p H Hne) as (m & l' & Hpop & _ & _ & _ & _ & Hmin).
+    rewrite Hpop in E. inversion E; subst. specialize (Hmin y Hy). unfold dl_less in Hmin. apply Z.ltb_ge in Hmin. exact Hmin.
 Qed.
